@@ -1334,6 +1334,13 @@ class Container:
 
         b[1] = quantity_value
         x, y = numpy.linalg.solve(a, b)
+        # An amount that is exactly zero (a target equal to the source's own concentration needs no solvent)
+        # comes out of the solve as rounding noise of either sign.
+        noise = Recipe._rounding_noise(abs(x) + abs(y), 0)
+        if -noise <= x < 0:
+            x = 0.
+        if -noise <= y < 0:
+            y = 0.
         if x < 0 or y < 0:
             raise ValueError("Solution is impossible to create.")
 
